@@ -2,6 +2,7 @@
 import os
 
 import common as C
+import optsdom
 
 
 def build(ctx):
@@ -131,6 +132,7 @@ def run(ctx):
     post_corr(ctx, ctx.scale(250, 4000))
     summ = oracle(ctx, ctx.scale(1500, 20000))
     ctx.add_summary(summ, "JSON round trip oracle")
+    optsdom.run(ctx, "C07")
     s2 = cli(ctx, ctx.scale(30, 240))
     ctx.add_summary(s2, "achcli -reformat")
     if ctx.tier == "thorough":
@@ -138,6 +140,8 @@ def run(ctx):
 
 
 def replay(path):
+    if optsdom.is_case(path):
+        return optsdom.replay(path)
     ok, out = C.build_harness()
     if not ok:
         print(out[-2000:])
